@@ -78,7 +78,7 @@ def make_cif(cfg, plan, tab, rng):
         if kind in ("Uani", "Bani"):
             a["ani"] = [num(rng, 0.005, 0.08, 4, esd) if kind == "Uani" else num(rng, 0.3, 6.0, 3, esd) for _ in range(3)] + \
                        [num(rng, -0.01, 0.01, 4, esd) if kind == "Uani" else num(rng, -0.5, 0.5, 3, esd) for _ in range(3)]
-        a["occ"] = (rng.choice([("1", 1.0), ("1.0", 1.0), ("1.00(1)", 1.0), ("0", 0.0), ("0.0", 0.0)]) if rng.random() < 0.2 else num(rng, 0.1, 1.0, 3, esd)) if cfg["occ"] else None
+        a["occ"] = (rng.choice([("1", 1.0), ("1.0", 1.0), ("1.00(1)", 1.0), ("0", 0.0), ("0.0", 0.0), ("1.", 1.0), (".5", 0.5), ("0.5000", 0.5), ("-0", 0.0)]) if rng.random() < 0.2 else num(rng, 0.1, 1.0, 3, esd)) if cfg["occ"] else None
         a["mult"] = rng.choice([1, 2, 3, 4, 6, 8, 12, 24]) if cfg["mult"] != "absent" else None
         atoms.append(a)
     L = []
